@@ -1,6 +1,7 @@
 import BurrowVerif.Model.Storage
 import BurrowVerif.Model.Group
 import BurrowVerif.Model.Float32
+import BurrowVerif.Model.EvalCache
 import Driver.Util
 
 namespace Driver.StorageD
@@ -152,5 +153,51 @@ def step (st : St) (args : List String) : St × String :=
         | none => (st, "bad-op")
       | _, _ => (st, "bad-op")
   | _ => (st, "bad-op")
+
+/-! ### persistent evaluator with cache (C05) on top of the storage model -/
+
+structure CSt where
+  store  : St := none
+  ccfg   : Option (Int × Nat × Nat) := none          -- expire (s), minimum-complete bits, allowed lag
+  cache  : EvalCache.Cache Group.GroupStatus := []
+
+def stepC (st : CSt) (args : List String) : CSt × String :=
+  match args with
+  | ["cacheinit", expire, minBits, allowed] =>
+    match parseInt? expire, hexNat? minBits, parseNat? allowed with
+    | some e, some m, some a => ({ st with ccfg := some (e, m, a), cache := [] }, "ok")
+    | _, _, _ => (st, "bad-op")
+  | ["cage", d] =>
+    match parseInt? d with
+    | some d => ({ st with cache := EvalCache.age d st.cache }, "ok")
+    | none => (st, "bad-op")
+  | ["cq", now, c, g, showAll] =>
+    match parseInt? now, st.ccfg, st.store with
+    | some now, some (expire, minBits, allowed), some s =>
+      let cfg : EvalCache.Cfg := { expire }
+      let key := EvalCache.mkKey c.toList g.toList
+      -- the cache clock is frozen at 0 by the harness (expiries are relative to the query instant)
+      let p := EvalCache.path st.cache key 0
+      let (s', looked) : Store × Option (Option Group.GroupStatus) :=
+        if p == .hit then (s, none) else
+          let (s', r) := fetchConsumer s now (name c) (name g)
+          (s', some (match r with
+            | .found topics => Group.evaluateGroup (F32.meets minBits) now allowed topics
+            | _ => none))
+      let (cache', result) := EvalCache.query cfg st.cache key 0 (fun _ => looked.join)
+      -- Spec oracle (C05 freshness with lifetime 0): a hit must equal a fresh evaluation
+      let freshNow : Option Group.GroupStatus :=
+        match (fetchConsumer s now (name c) (name g)).2 with
+        | .found topics => Group.evaluateGroup (F32.meets minBits) now allowed topics
+        | _ => none
+      let viol := expire == 0 && p == .hit && result != freshNow
+      let out := match result with
+        | none => "gs=0 complete=3f800000 count=0 total=0 maxlag=- parts=-"
+        | some gs => renderGroupStatus (if showAll == "1" then gs else Group.filterView gs)
+      ({ st with store := some s', cache := cache' }, s!"rc={c} rg={g} {out} ~path={repr p}" ++ (if viol then " ~specviol=D16" else ""))
+    | _, _, _ => (st, "bad-op")
+  | _ =>
+    let (s', out) := step st.store args
+    ({ st with store := s' }, out)
 
 end Driver.StorageD
